@@ -82,6 +82,23 @@ inductive Event where
 
 abbrev Log := List Event
 
+/-! ### the setter handed to the listeners of the four events -/
+
+/-- `new_value is None` -/
+def _root_.HotXL.Value.isBlank : Value → Bool
+  | .blank => true
+  | _ => false
+
+/-- the closure `valsetter` of `call_function` / `call_variable` / `call_cell_value` /
+    `call_range_value`: `if new_value is not None: result['value'] = new_value` -/
+def valsetter (result newValue : Value) : Value := if newValue.isBlank then result else newValue
+
+/-- the value of a reference after the listeners of its event have run: `init` is what
+    `result['value']` holds before `emit` (the function's return value, the stored variable,
+    `None` for a cell or a range), `calls` the arguments of all setter calls in the order they were
+    made (all listeners, several calls each) -/
+def applySetters (init : Value) (calls : List Value) : Value := calls.foldl valsetter init
+
 /-! ### leaves -/
 
 def digitsVal (ds : List Char) : Nat := ds.foldl (fun a c => a * 10 + (c.toNat - 48)) 0
